@@ -16,6 +16,8 @@ func main() {
 	switch os.Args[1] {
 	case "smoke":
 		os.Exit(smoke())
+	case "case":
+		os.Exit(caseMain(os.Args[2:]))
 	case "worker":
 		os.Exit(workerMain(os.Args[2:]))
 	}
